@@ -92,6 +92,10 @@ T1_FILES = {
     'Properties/T1ColApply.v': ['C06', 'C07', 'C18', 'C17'],
     'Proofs/GenEvalCtxProofs.v': ['C07', 'C10'],
     'Properties/T1EvalCtx.v': ['C07', 'C10'],
+    'Proofs/GenViewsProofs.v': ['C09', 'C01'],
+    'Properties/T1Views.v': ['C09', 'C01'],
+    'Proofs/GenSqlWriteProofs.v': ['C19', 'C15'],
+    'Properties/T1SqlWrite.v': ['C19', 'C15'],
     'Proofs/GenIoJsonProofs.v': ['C14', 'C17'],
     'Properties/T1IoJson.v': ['C14', 'C17'],
     'Proofs/GenEnumFacProofs.v': ['C17', 'C14', 'C13', 'C09'],
@@ -114,4 +118,6 @@ T1_PROP_FILES = {
     'Properties/T1FilterDispatch.v': ['C02', 'C17', 'C18', 'C10'],
     'Properties/T1ColApply.v': ['C06', 'C07'],
     'Properties/T1EvalCtx.v': ['C07', 'C10'],
+    'Properties/T1Views.v': ['C09', 'C01'],
+    'Properties/T1SqlWrite.v': ['C19', 'C15'],
 }
